@@ -104,6 +104,9 @@ def invoke(binp, case, keep=None):
                 with open(p, "wb") as f:
                     f.write(b)
         argv = [binp] + list(case.get("flags") or [])
+        if case.get("repl") is not None:
+            import sys as _sys
+            argv = [_sys.executable, os.path.join(core.VERIF, "standins", "repl_drive.py"), binp] + list(case["repl"])
         prog = case.get("prog")
         if prog is not None:
             prog = prog.replace("@TMP@", tmp)
